@@ -148,10 +148,27 @@ def stage_oracle_ninja(rep, rng, n):
         args = [a for a in args if not any(c in a for c in '\n\r\0')]
         if not args:
             continue
-        for channel in ('cmd', 'flags'):
+        for channel in ('cmd', 'flags', 'edgevars'):
             nf = NinjaFile('build.bfg')
             k = len(args) // 2
-            if channel == 'cmd':
+            if channel == 'edgevars':
+                # every edge variable's words must reach the process, whatever the order of the variables in the dict and
+                # wherever a description (the only variable written without shell quoting) stands among them
+                names = ['input', 'output', 'extra', 'v4'][:rng.randint(1, 4)]
+                cuts = sorted(rng.randint(0, len(args)) for _ in range(len(names) - 1))
+                parts = [args[a:b] for a, b in zip([0] + cuts, cuts + [len(args)])]
+                nf.rule('r', command=[shtools.ARGVREC] + [var(n_) for n_ in names])
+                order = list(zip(names, parts))
+                rng.shuffle(order)
+                vs = dict(order)
+                if rng.random() < 0.8:
+                    items_ = list(vs.items())
+                    items_.insert(rng.randint(0, len(items_)), ('description', gen.arg_string(rng, None, maxlen=6).replace('\n', ' ') or 'd $x'))
+                    vs = dict(items_)
+                    rep.count('edgevars:after_description=%d' % (len(vs) - 1 - list(vs).index('description')))
+                nf.build(output='out', rule='r', variables=vs)
+                expect = args
+            elif channel == 'cmd':
                 nf.rule('command', command=shell.shell_list([var('cmd')]))
                 nf.build(output='out', rule='command', variables={'cmd': [shtools.ARGVREC] + args})
                 expect = args
@@ -167,7 +184,7 @@ def stage_oracle_ninja(rep, rng, n):
             err = ''
             try:
                 m = ninjaparse.parse(o.getvalue())
-                cmd = m.command('out' if channel == 'cmd' else 'o ut.o')
+                cmd = m.command('o ut.o' if channel == 'flags' else 'out')
                 rc, recs, err = shtools.dash_run(cmd)
                 if rc == 0 and len(recs) == 1:
                     got = recs[0]['argv']
@@ -184,7 +201,7 @@ def stage_oracle_ninja(rep, rng, n):
                             {'channel': channel, 'args': expect, 'delivered': got, 'build.ninja': o.getvalue(), 'error': err},
                             classes=()):
                     bad += 1
-    rep.stage('oracle:build.ninja->evaluator->sh', cases=len(cases) * 2, failures=bad)
+    rep.stage('oracle:build.ninja->evaluator->sh', cases=len(cases) * 3, failures=bad)
     return bad
 
 
@@ -280,14 +297,17 @@ def stage_w_file(rep, rng, n):
             for j, (lo, hi) in enumerate(((1, 2), (0, 2), (0, 2), (0, 1))):
                 sect.append([gen_pathname(rng, rep, 'p%d_%d_%d' % (b, j, k)) for k in range(rng.randint(lo, hi))])
             vs_enc, vs_py = [], {}
-            for _ in range(rng.choice([0, 0, 1, 2])):
-                vn = rng.choice(['cmd', 'description', 'extra']) if rng.random() < 0.7 else gen_name(rng, set(used))
+            for _ in range(rng.choice([0, 1, 2, 3, 4])):
+                vn = rng.choice(['cmd', 'description', 'description', 'input', 'output', 'extra']) if rng.random() < 0.8 \
+                    else gen_name(rng, set(used))
                 if vn in vs_py:
                     continue
-                e, o = gen_value(rng, rep, refs, bad_nl)
-                if vn == 'description':
+                e, o = gen_value(rng, rep, refs, bad_nl, lo=1)
+                if vn == 'description' and rng.random() < 0.5:
                     e, o = [[[2, 'd$ x']]], 'd$ x'
                 vs_enc.append([vn, e]); vs_py[vn] = o
+            if 'description' in vs_py:
+                rep.count('file_write:edge_vars_after_description=%d' % (len(vs_py) - 1 - list(vs_py).index('description')))
             nf.build(output=sect[0], rule=rule, inputs=sect[1], implicit=sect[2], order_only=sect[3], variables=vs_py)
             enc_builds.append([[[[2, p_]] for p_ in sect[0]], rule] + [[[[2, p_]] for p_ in x] for x in sect[1:]] + [vs_enc])
             outs_decl.append((sect, rule, [v_[0] for v_ in vs_enc]))
@@ -416,6 +436,94 @@ def stage_manifest_theorems(rep, rng, n):
     return dis, bad
 
 
+# ----------------------------------------------------------------------------- system: steps with description=
+ODD_BITS = [' ', '$x', '$HOME', "'", '"', ';', '&', '(', '#', '*', '=', ' -', '`']
+
+
+def odd_file_name(rng, stem, ext='.txt'):
+    bits = [stem] + [rng.choice(ODD_BITS) for _ in range(rng.randint(0, 2))]
+    s = bits[0]
+    for b in bits[1:]:
+        k = rng.randint(1, len(s))
+        s = s[:k] + b + s[k:]
+    return s + ext
+
+
+def described_steps(rep, rng, idx):
+    """Generated project whose steps carry a user description= next to further per-edge variables: copy_file in every
+    mode (the symlink/hardlink copiers pass the source through an extra edge variable), command(), build_step().
+    The real bfg9000 configures it for Ninja; every edge is evaluated by the reference evaluator and run by the real dash
+    with recorders named ln / cp first on PATH; the process must receive the declared arguments / file names."""
+    import os
+    from . import project
+    steps, lines = [], ["project('p', '1.0')"]
+    files = {}
+    for i in range(rng.randint(2, 4)):
+        src = odd_file_name(rng, 'da%d' % i)
+        out = rng.choice(['', 'sub%d/' % i]) + odd_file_name(rng, 'li%d' % i)
+        mode = rng.choice(['copy', 'symlink', 'symlink', 'hardlink'])
+        desc = rng.choice([None, gen.arg_string(rng, None, maxlen=8).replace('\n', ' ') or 'de sc$x'])
+        if i == 0:
+            # every project has one described copier step that passes its source through a further edge variable, and
+            # whose source name needs shell quoting
+            mode, desc = 'symlink', desc or 'linking $x'
+            src = src[:2] + rng.choice([' ', '$x', '$HOME', "'", ' $']) + src[2:]
+        files[src] = 'x\n'
+        lines.append('copy_file(%r, %r, mode=%r%s)' % (out, src, mode, ', description=%r' % desc if desc else ''))
+        steps.append({'kind': 'copy', 'out': out, 'src': src, 'mode': mode, 'desc': desc})
+    for i in range(rng.randint(1, 3)):
+        args = [a for a in gen.arg_list(rng, rep, maxn=3) if not any(c in a for c in '\n\r\0')] or ['a b']
+        desc = rng.choice([None, gen.arg_string(rng, None, maxlen=8).replace('\n', ' ') or 'de sc$x'])
+        d = ', description=%r' % desc if desc else ''
+        if rng.random() < 0.5:
+            lines.append('command(%r, cmd=%r%s)' % ('cmd%d' % i, [shtools.ARGVREC] + args, d))
+            steps.append({'kind': 'command', 'out': 'cmd%d' % i, 'args': args, 'desc': desc})
+        else:
+            lines.append('build_step(%r, cmd=%r%s)' % ('gen%d.out' % i, [shtools.ARGVREC] + args, d))
+            steps.append({'kind': 'build_step', 'out': 'gen%d.out' % i, 'args': args, 'desc': desc})
+    files['build.bfg'] = '\n'.join(lines) + '\n'
+    bad = 0
+    with project.Scratch('c02d') as sc:
+        project.write_tree(sc.src, files)
+        rc, out = project.configure(sc.src, sc.build, 'ninja')
+        if rc != 0:
+            rep.count('system:configure_failed')
+            rep.sample({'configure_failed': out[-300:], 'script': files['build.bfg']})
+            return 0
+        stub = os.path.join(sc.build, '.stubs')
+        os.makedirs(stub, exist_ok=True)
+        for t in ('ln', 'cp'):
+            os.symlink(shtools.ARGVREC, os.path.join(stub, t))
+        text = project.read(sc.build, 'build.ninja')
+        m = ninjaparse.parse(text)
+        for st in steps:
+            b = m.edge_for(st['out'])
+            got, err, expect_ok = None, '', False
+            if b is None:
+                err = 'no edge produces %r' % st['out']
+            else:
+                rc_, recs, err = shtools.dash_run(m.command(st['out']), cwd=sc.build,
+                                                  extra_env={'ARGVREC_TOUCH': '', 'PATH': stub + ':' + os.path.join(common.VERIF, 'harness', 'stubs') + ':/venv/bin:/usr/bin:/bin'})
+                if rc_ == 0 and len(recs) == 1:
+                    got = recs[0]['argv']
+                    if st['kind'] == 'copy':
+                        want_src = os.path.join(sc.src, st['src'])
+                        denotes = len(got) >= 2 and os.path.normpath(os.path.join(sc.build, os.path.dirname(st['out']) if st['mode'] == 'symlink' else '', got[-2])) == want_src
+                        expect_ok = len(got) == 3 and got[-1] == st['out'] and denotes and os.path.basename(recs[0]['argv0']) in ('ln', 'cp')
+                    else:
+                        expect_ok = got == st['args']
+            rep.case('sysd:%s:%r' % (st['kind'], st), True)
+            rep.count('described:%s:%s:%s' % (st['kind'], st.get('mode', '-'), 'desc' if st['desc'] else 'nodesc'))
+            if not expect_ok:
+                declared = st['args'] if st['kind'] != 'copy' else [st['src'], st['out']]
+                bad += rep.fail('ninja backend: %s step %r%s: declared %r is delivered as %r (%s)' % (
+                    st['kind'], st['out'], ' with description=%r' % st['desc'] if st['desc'] else '', declared, got, err[:120]),
+                    {'script': files['build.bfg'], 'step': st, 'delivered': got, 'edge': b and {k_: b[k_] for k_ in ('outputs', 'rule', 'inputs', 'bound')},
+                     'error': err[-300:]})
+    rep.traces += 1
+    return bad
+
+
 def run(rep):
     rng = random.Random(rep.seed)
     thorough = rep.tier == 'thorough'
@@ -430,6 +538,8 @@ def run(rep):
     from . import c06
     for i in range(12 if thorough else 2):
         found += c06.declared_vs_delivered(rep, rng, i, 'ninja', odd_names=(i % 2 == 1))
+    for i in range(10 if thorough else 3):
+        found += described_steps(rep, rng, i)
     rep.stage('system:configure->evaluator->dash->recorder', projects=rep.traces)
     rep.stage('R:parse_manifest == Python splitter (every manifest seen)', **ninjaparse.STATS)
     if ninjaparse.STATS['disagreements']:
